@@ -670,3 +670,25 @@ fn insert_after_clear_is_kept() {
         let _ = c.close();
     });
 }
+
+/// [C09] insert_if_present never creates an entry - also not out of one whose TTL has elapsed but which the sweep has not reclaimed
+/// yet: to every lookup that key is absent, so the conditional write must answer false and leave it absent.
+#[test]
+fn insert_if_present_on_an_expired_key_creates_nothing() {
+    if !only("insert_if_present_on_an_expired_key_creates_nothing") { return; }
+    guarded("insert_if_present_on_an_expired_key_creates_nothing", || {
+        let c: Cache<u64, u64, TransparentKeyBuilder<u64>> = Cache::builder(200, 1000)
+            .set_key_builder(TransparentKeyBuilder::<u64>::default()).set_ignore_internal_cost(true).set_cleanup_duration(Duration::from_secs(3600)).finalize().unwrap();
+        c.insert_with_ttl(1, 10, 1, Duration::from_millis(5)); c.wait().unwrap();
+        std::thread::sleep(Duration::from_millis(40));
+        let before = c.get(&1).map(|v| *v.value());
+        let r = c.insert_if_present(1, 11, 1); c.wait().unwrap();
+        let after = c.get(&1).map(|v| *v.value());
+        if before.is_some() || r || after.is_some() {
+            fail("insert_if_present_on_an_expired_key_creates_nothing", "C09:cache.try_update.if-present-creates-nothing", &["C09", "C03"], "Cache::try_update",
+                "Cache(cleanup interval 1 h); insert_with_ttl(1, 10, cost 1, 5 ms); wait(); sleep 40 ms; get(1); insert_if_present(1, 11, cost 1); wait(); get(1)".into(),
+                format!("get(1) = {:?}; insert_if_present -> {}; get(1) = {:?}", before, r, after), "None; false; None (the TTL has elapsed: the key is absent)".into());
+        }
+        let _ = c.close();
+    });
+}
